@@ -69,6 +69,7 @@ def run(chk):
         rule_errors(chk, comp)
     rule_strslice(chk, reach)
     rule_locations_total(chk)
+    rule_layout_total(chk)
     rule_admitted_kinds(chk)
     rule_elab_total(chk)
     rule_scope_walk(chk)
@@ -698,6 +699,42 @@ def rule_locations_total(chk):
         chk.ob("C08.locations/" + key, not aborts, "%d locations (every byte, every end-of-file slot, one past the end) decode without aborting" % (total + 1) if not aborts else
                "%s aborts for location %d of a three-file source manager (%s): compile() panics while rendering a diagnostic at that position (%d of %d locations)"
                % (key, aborts[0][0], aborts[0][1], len(aborts), total + 1), where(fn_), sample={"locations": total + 1, "aborting": len(aborts)})
+
+
+def rule_layout_total(chk):
+    """The layout checker does not abort: get_type_layout and check_layout evaluated (layoutmodel.py) on element types
+    that are legal but degenerate - a struct without members, alone, nested and next to data; one-element vectors and
+    arrays - in both packing modes (division by an alignment of zero, index into an empty member list)."""
+    import layoutmodel as LM
+    f = chk.facts
+    m = LM.LayoutModel(f)
+    if not (m.gl and m.cl):
+        return
+    f1 = m.scalar("Float32")
+    f3 = m.vector(f1, 3)
+    e0 = m.struct([])
+    types = {"{}": e0, "{ {} }": m.struct([e0]), "{ {}; float3 }": m.struct([e0, f3]), "{ float3; {} }": m.struct([f3, e0]), "{ {}[2] }": m.struct([m.array(e0, 2)]),
+             "float1": m.vector(f1, 1), "{ float[1] }": m.struct([m.array(f1, 1)]), "{ const {} }": m.struct([m.modifier(e0)])}
+    bad = None
+    n = 0
+    for name, i in types.items():
+        for mode in ("HlslStructuredBuffer", "Metal"):
+            r = m.layout(i, mode)
+            n += 1
+            if isinstance(r, tuple) and r and r[0] == "aborts":
+                bad = bad or "get_type_layout aborts on %s in %s packing (%s)" % (name, mode, r[1][:80])
+            elif isinstance(r, tuple) and r and r[0] == "unreadable":
+                chk.unreadable("C08.layout/no-abort", "get_type_layout on the layout model", r[1][:100], where(m.gl))
+                return
+        for obj in ("StructuredBuffer", "RWStructuredBuffer"):
+            r = m.check([m.object(obj, i)])
+            n += 1
+            if r[0] == "aborts":
+                bad = bad or "check_layout aborts on %s<%s> (%s): with layout validation on, compile() panics on a program that uses a struct without data as a buffer element" % (obj, name, r[1][:80])
+            elif r[0] == "unreadable":
+                chk.unreadable("C08.layout/no-abort", "check_layout on the layout model", r[1][:100], where(m.cl))
+                return
+    chk.ob("C08.layout/no-abort", bad is None, bad or "%d evaluations on degenerate element types: no abort" % n, where(m.cl), sample={"evaluations": n})
 
 
 def rule_strslice(chk, reach):
